@@ -13,6 +13,7 @@
   parser, compared with the implementation on every run by C05 and by C15's sessions).
 -/
 import Lace.Proofs.EvalLemmas
+import Lace.Proofs.EvalSpec
 import Lace.Model.AsmSource
 namespace Lace.C15
 open Lace Lace.Asm Lace.Spec Lace.ISA Lace.Dbg
@@ -271,7 +272,7 @@ theorem eval_st_label (so mi : Bool) (tbl : SymTab) (orig : Word) (m : Machine) 
 
 /-! ### "the PC changes only if the instruction is itself a jump" -/
 
-/-- **C15, PC clause** (STATED, not proved in this round).  If `eval` of a statement executes,
+/-- **C15, PC clause** (proved below: `eval_pc_only_jumps_holds`).  If `eval` of a statement executes,
 and the statement is not JMP/RET/JSR/JSRR/CALL/RETS, the PC is unchanged.  By `eval_eq_isa_abs`
 this reduces to the same statement about `execAbs`, a case analysis over `Spec.Instr` in which
 every non-jump case is `writeDR` / `write` / a trap routine other than HALT. -/
@@ -302,6 +303,11 @@ theorem eval_pc_only_jumps_partial
       | exit c w2 => rw [he] at h; cases h
       | panic s => rw [he] at h; cases h
     · cases h
+
+/-- **C15, PC clause, proved in full**: `eval` of an instruction that is not JMP/RET/JSR/JSRR/
+CALL/RETS leaves the PC where it was. -/
+theorem eval_pc_only_jumps_holds : eval_pc_only_jumps :=
+  eval_pc_only_jumps_partial C15Spec.execAbs_pc
 
 /-! ### Refusals have no effect; `eval` never ends the session -/
 
@@ -343,7 +349,7 @@ theorem eval_refusals_noop (so mi : Bool) (tbl : SymTab) (orig : Word) (m : Mach
     rw [eval_text_eq_spec, hp]
     simp only [hr, Bool.false_eq_true, if_false, evalSpec, hi, ho]
 
-/-- **C15, session clause** (STATED; the reduction to the specification is proved below).
+/-- **C15, session clause** (proved below: `eval_never_ends_session_holds`).
 `eval` of any parsed statement never panics; it ends the process only with exit status 1, and
 only when the instruction is GETC/IN and the input is exhausted (which is how the VM executes that
 trap — the property demands "exactly as the VM would", and DESIGN.md I3 makes end of input an
@@ -384,6 +390,10 @@ theorem eval_never_ends_session_partial
           cases hx : execAbs so mi i m w <;> rw [hx] at h <;> simp only [toEval] at h <;> cases h
           exact he _ _ hx
       · exact ⟨fun _ h => (by cases h), fun _ _ h => (by cases h)⟩
+
+/-- **C15, session clause, proved in full.** -/
+theorem eval_never_ends_session_holds : eval_never_ends_session :=
+  eval_never_ends_session_partial C15Spec.execAbs_ends
 
 /-- What is NOT proved here: that the assembler's statement parser never panics on any text
 (no `unreachable!`, no fuel exhaustion) — C05 proves this for the whole-program parser
